@@ -5,14 +5,17 @@ package c14
 
 import (
 	"fmt"
+	"go/token"
 	"os"
 	"path/filepath"
 	"regexp"
 	"runtime"
+	"slices"
 	"sort"
 	"strings"
 	"sync"
 	"testing"
+	"unicode/utf8"
 
 	"github.com/nspcc-dev/neo-go/pkg/smartcontract"
 	"github.com/nspcc-dev/neo-go/pkg/smartcontract/manifest"
@@ -28,7 +31,7 @@ const (
 
 var scType = map[ty]smartcontract.ParamType{
 	tInt: smartcontract.IntegerType, tBool: smartcontract.BoolType, tStr: smartcontract.StringType,
-	tBytes: smartcontract.ByteArrayType, tInts: smartcontract.ArrayType,
+	tBytes: smartcontract.ByteArrayType, tInts: smartcontract.ArrayType, tVoid: smartcontract.VoidType,
 }
 
 type finding struct {
@@ -38,6 +41,21 @@ type finding struct {
 
 // checkManifest evaluates the manifest / debug-info clause for one program.
 func checkManifest(p *program, c compiled) (fs []finding, checked int) {
+	fs, checked, _, _ = checkManifestN(p, c)
+	return
+}
+
+func expNames(p *program) []string {
+	var r []string
+	for _, f := range p.exported {
+		r = append(r, f.name)
+	}
+	return r
+}
+
+// checkManifestN also counts the methods with a receiver and the functions
+// with names outside ASCII that were found in the debug information.
+func checkManifestN(p *program, c compiled) (fs []finding, checked, methods, nonASCII int) {
 	add := func(sig, f string, a ...any) { fs = append(fs, finding{sig: sig, detail: fmt.Sprintf(f, a...)}) }
 	script := c.nef.Script
 	// instruction boundaries
@@ -53,9 +71,24 @@ func checkManifest(p *program, c compiled) (fs []finding, checked int) {
 		bound[ctx.IP()] = op
 		params[ctx.IP()] = par
 	}
+	// debug methods are identified by the Go name; methods with a receiver are
+	// told from functions by IsFunction
 	dbg := map[string]int{}
+	dkey := func(id string, method bool) string {
+		if method {
+			return "(method) " + id
+		}
+		return id
+	}
 	for i, m := range c.di.Methods {
-		dbg[m.ID] = i
+		k := dkey(m.ID, !m.IsFunction)
+		if _, dup := dbg[k]; dup {
+			add("debug:two-methods-with-one-id", "%s", k)
+		}
+		dbg[k] = i
+		if !utf8.ValidString(m.ID) || !utf8.ValidString(m.Name.Name) {
+			add("debug:method-name-not-utf8", "id %q name %q", m.ID, m.Name.Name)
+		}
 	}
 	want := map[string]bool{}
 	for _, f := range p.exported {
@@ -79,8 +112,8 @@ func checkManifest(p *program, c compiled) (fs []finding, checked int) {
 				add("manifest:parameter-name", "%s parameter %d: manifest %q, source %q", f.name, i, md.Parameters[i].Name, a.name)
 			}
 		}
-		if md.ReturnType != scType[f.rets[0]] {
-			add("manifest:return-type", "%s: manifest %s, source %s", f.name, md.ReturnType, typeName(f.rets[0], nil))
+		if md.ReturnType != scType[f.ret0()] {
+			add("manifest:return-type", "%s: manifest %s, source %s", f.name, md.ReturnType, typeName(f.ret0(), nil))
 		}
 		op, ok := bound[md.Offset]
 		if !ok {
@@ -109,7 +142,15 @@ func checkManifest(p *program, c compiled) (fs []finding, checked int) {
 			continue
 		}
 		if !want[md.Name] {
-			add("manifest:unexpected-method", "%s/%d at %d", md.Name, len(md.Parameters), md.Offset)
+			add("manifest:unexpected-method", "%q/%d at %d (the exported functions of the source are %q)", md.Name, len(md.Parameters), md.Offset, expNames(p))
+		}
+	}
+	if p.globals != nil {
+		for _, sv := range c.di.StaticVariables {
+			name, _, _ := strings.Cut(sv, ",")
+			if !slices.Contains(p.globals, name) {
+				add("debug:static-variable-is-no-package-variable", "%q", sv)
+			}
 		}
 	}
 	// every function of the source in the debug information
@@ -120,20 +161,43 @@ func checkManifest(p *program, c compiled) (fs []finding, checked int) {
 	var rs []rng
 	for _, f := range p.funcs {
 		id := f.name
-		np := len(f.params)
+		np := len(f.params) // arguments taken by the bytecode
 		if f.recv != nil {
 			id = f.recv.name + "." + f.name
 			np++
 		}
-		i, ok := dbg[id]
+		i, ok := dbg[dkey(f.name, f.recv != nil)]
 		if !ok {
 			// unused functions are not emitted
 			continue
 		}
 		checked++
 		m := c.di.Methods[i]
-		if len(m.Parameters) != np {
-			add("debug:parameter-count", "%s: debug %d, source %d", id, len(m.Parameters), np)
+		if f.recv != nil {
+			methods++
+		}
+		if !isASCII(f.name) {
+			nonASCII++
+		}
+		// the receiver is not listed among the debug parameters
+		if len(m.Parameters) != len(f.params) {
+			add("debug:parameter-count", "%s: debug %d, source %d", id, len(m.Parameters), len(f.params))
+		} else {
+			for k, a := range f.params {
+				if m.Parameters[k].Name != a.name {
+					add("debug:parameter-name", "%s parameter %d: debug %q, source %q", id, k, m.Parameters[k].Name, a.name)
+					break
+				}
+			}
+		}
+		if m.Name.Name != lowerFirst(f.name) {
+			add("debug:method-name", "%s: debug name %q, expected %q", id, m.Name.Name, lowerFirst(f.name))
+		}
+		if m.IsExported != (f.exported || f.recv != nil && token.IsExported(f.name)) {
+			add("debug:exported-flag", "%s: debug says %v", id, m.IsExported)
+		}
+		if len(f.rets) == 0 && m.ReturnType != "Void" {
+			add("debug:return-type", "%s: procedure with debug return type %s", id, m.ReturnType)
 		}
 		s, e := int(m.Range.Start), int(m.Range.End)
 		if _, ok := bound[s]; !ok || s > e || e >= len(script) {
@@ -146,7 +210,6 @@ func checkManifest(p *program, c compiled) (fs []finding, checked int) {
 		if op := bound[s]; op == opcode.INITSLOT && int(params[s][1]) != np {
 			add("debug:bytecode-takes-other-argument-count", "%s: INITSLOT takes %d, source %d", id, params[s][1], np)
 		}
-		rs = append(rs, rng{s, e, id})
 		for _, sp := range m.SeqPoints {
 			if _, ok := bound[sp.Opcode]; !ok || sp.Opcode < s || sp.Opcode > e {
 				add("debug:sequence-point-outside-method-range", "%s: opcode %d, range [%d,%d]", id, sp.Opcode, s, e)
@@ -157,6 +220,10 @@ func checkManifest(p *program, c compiled) (fs []finding, checked int) {
 				break
 			}
 		}
+	}
+	// all emitted functions, literals included
+	for _, m := range c.di.Methods {
+		rs = append(rs, rng{int(m.Range.Start), int(m.Range.End), m.ID})
 	}
 	sort.Slice(rs, func(i, j int) bool { return rs[i].s < rs[j].s })
 	for i := 1; i < len(rs); i++ {
